@@ -72,7 +72,9 @@ def product_helper(a, b, out, func):
     res = func._implementation(np.asarray(a), np.asarray(b), out=np.asarray(out))
     if getattr(out, "units", None) is not None:
         out.units = prod_units
-    return unyt_array(res, prod_units, bypass_validation=True)
+    # the product of two vectors is a numpy scalar, not an array
+    ret_cls = unyt_quantity if np.ndim(res) == 0 else unyt_array
+    return ret_cls(np.asarray(res), prod_units, bypass_validation=True)
 
 
 @implements(np.dot)
